@@ -527,6 +527,7 @@ void gen(uint64_t seed, int tier, sim::Plan &p) {
         p.cfg["giga_size"] = size;
         p.cfg["giga_blocks"] = (((int64_t)1 << 32) / 512) + r.pick(std::vector<int64_t>{2, 100000, 700000});
         p.cfg["soft_budget"] = 0; p.cfg["hard_budget"] = 0;
+        p.cfg["hang_scale"] = 10; // wall-clock watchdog allowance: 45 s on an idle machine
         return;
     }
     int nw = mt ? (int)r.range(1, 4) : 1;
